@@ -131,6 +131,9 @@ pub trait Engine: Sync {
     fn hang_or_death_is_violation(&self) -> bool {
         false
     }
+    fn minimise_seconds(&self) -> u64 {
+        20
+    }
     /// What "evaluations" counts for this engine (default: scenarios).
     fn evaluations(&self, _st: &Stats, scenarios: u64) -> u64 {
         scenarios
@@ -314,7 +317,7 @@ pub fn run_worker<E: Engine>(e: &E, tier: Tier, base_seed: u64, worker: u64, nwo
                 if rep.violations.iter().any(|(_, pv)| pv.kind == v.kind && pv.signature == v.signature) {
                     continue;
                 }
-                let min_deadline = Instant::now() + std::time::Duration::from_secs(20);
+                let min_deadline = Instant::now() + std::time::Duration::from_secs(e.minimise_seconds());
                 let (min_sc, min_v, steps) = minimise(e, &sc, v, min_deadline);
                 let path = write_replay(e, base_seed, idx * 16 + seen.len() as u64, seed, &sc, &min_sc, &min_v, steps);
                 rep.violations.push((path, min_v));
@@ -368,8 +371,9 @@ pub fn evidence_json<E: Engine>(
             "distinct_nontrivial": st.nontrivial.len(),
             "rule": e.rule(),
             "samples": st.samples,
-            "exhaustive": e.exhaustive_note().is_some() && tier == Tier::Thorough,
-            "exhaustive_note": e.exhaustive_note(),
+            "exhaustive": false,
+            "per_scenario_axis_enumerated_completely": e.exhaustive_note().is_some() && tier == Tier::Thorough,
+            "enumeration_note": e.exhaustive_note(),
             "runs": runs,
             "runs_per_hour": per_hour,
             "seeds": { "base": base_seed, "first_index": total.first_index, "last_index": total.last_index, "derivation": "scenario seed = mix(base, index, lane); default base is fixed" },
